@@ -18,6 +18,12 @@ Definition model_final (b : beh) (f : pfinal) : bool :=
   else if callee_reports b then final_meets (demanded b) f
   else is_cpe f.
 
+Lemma exn_eqb_eq : forall a c, exn_eqb a c = true -> a = c.
+Proof.
+  induction a as [|x a IH]; intros [|y c] H; cbn in H; try discriminate; [reflexivity|].
+  apply andb_true_iff in H as [H1 H2]. apply Nat.eqb_eq in H1. subst. f_equal. now apply IH.
+Qed.
+
 Section Facts.
   Variable P : list pop.
   Variable C : list cop.
@@ -224,5 +230,57 @@ Section Facts.
     intros b. induction sched as [|c sched IH]; intros s Hr; cbn; [lia|].
     destruct (lstep P C b 0 c s) eqn:E; [|now apply IH].
     pose proof (measure_decreases b s c l Hr E). specialize (IH l (lr_step P C b s c l Hr E)). lia.
+  Qed.
+
+  (* ---- forms used by Props/C17.v ------------------------------------------------------------ *)
+  Lemma lrun_measure_le : forall b sched s, lreach P C b s -> measure (lrun P C b sched s) <= measure s.
+  Proof.
+    intros b. induction sched as [|c sched IH]; intros s Hs; [apply le_n|].
+    change (lrun P C b (c :: sched) s) with (lrun P C b sched (lstep_skip P C b c s)). unfold lstep_skip.
+    destruct (lstep P C b 0 c s) eqn:E; [|now apply IH].
+    pose proof (measure_decreases b s c l Hs E). specialize (IH l (lr_step P C b s c l Hs E)). lia.
+  Qed.
+
+  Lemma finish_after : forall b sched,
+    exists ext, List.length ext <= measure linit /\ p_done (lrun P C b (sched ++ ext) linit) = true.
+  Proof.
+    intros b sched. pose proof (lrun_reach P C b sched linit (lr_init P C b)) as Hr.
+    destruct (can_finish b (measure (lrun P C b sched linit)) (lrun P C b sched linit) Hr (le_n _)) as [ext [Hl Hd]].
+    exists ext. split.
+    - pose proof (lrun_measure_le b sched linit (lr_init P C b)). lia.
+    - unfold lrun in *. now rewrite fold_left_app.
+  Qed.
+
+  (* the child reports and nobody kills it: exactly the callee's outcome *)
+  Lemma faithful_exact : forall b s f, lreach P C b s ->
+    returns_envelope b = false -> callee_reports b = true ->
+    p_stat (ps s) = PSDone f -> c_killed (cs s) = false ->
+    match b_out b with
+    | COk => f = FReturnCallee
+    | _ => if b_isa b StopIterationC then f = FRaise (XCls RuntimeErrorC) else f = FRaise XCallee
+    end.
+  Proof.
+    intros b s f Hr He Hrep Hf Hk.
+    assert (Hd : p_done s = true) by (unfold p_done; now rewrite Hf).
+    pose proof (done_spec b s Hr Hd He) as Hs.
+    unfold spec_ok in Hs. rewrite Hf, Hk in Hs. apply andb_true_iff in Hs as [Hs _].
+    unfold outcome_ok in Hs. rewrite andb_false_l, orb_false_r in Hs.
+    unfold demanded in Hs. rewrite Hrep in Hs.
+    destruct (b_out b).
+    - destruct f as [| |x]; try discriminate; reflexivity.
+    - destruct (b_isa b StopIterationC).
+      + destruct f as [| |[|c|]]; try discriminate. cbn in Hs. f_equal. f_equal. now apply exn_eqb_eq.
+      + destruct f as [| |[|c|]]; try discriminate; reflexivity.
+    - destruct (b_isa b StopIterationC).
+      + destruct f as [| |[|c|]]; try discriminate. cbn in Hs. f_equal. f_equal. now apply exn_eqb_eq.
+      + destruct f as [| |[|c|]]; try discriminate; reflexivity.
+  Qed.
+
+  Lemma death_outcome : forall b s f, lreach P C b s -> p_stat (ps s) = PSDone f ->
+    model_final b f = true \/ (c_killed (cs s) = true /\ is_cpe f = true).
+  Proof.
+    intros b s f Hr Hf. pose proof (done_exact b s Hr) as H.
+    unfold f_exact in H. rewrite Hf in H. apply orb_true_iff in H as [H|H]; [now left|].
+    right. now apply andb_true_iff in H.
   Qed.
 End Facts.
